@@ -419,7 +419,59 @@ def rule_SQ5(ctx, tier, which=None):
     if which in (None, "client"):
         # reference counting of shared appointment bodies counts BOTH kinds of link
         d = P.require(PDBM + "delete_pending_appointment")
-        counted = sorted({sql.select_shape(st)["tables"][0] for bb, st in sql.body_sql(d) if sql.classify(st)["kind"] == "select" and "COUNT" in st.upper() and sql.select_shape(st)["tables"]})
+        LINKS = ("pending_appointments", "invalid_appointments")
+
+        def _strings(term):
+            return {str(x[1]) for x in og.walk(term) if isinstance(x, tuple) and x and x[0] == "const" and isinstance(x[1], str)}
+
+        def _is_count(term):
+            """does the term come out of a COUNT query -- its own text, or that of a DBM helper it was obtained through?"""
+            if any("COUNT" in x.upper() for x in _strings(term)):
+                return True
+            # the statement text is a format template (a byte-string constant, which origin terms do not carry): the
+            # templates of this very function are looked at instead
+            if any(isinstance(x, tuple) and x and x[0] == "call" and x[1] == "std::fmt::format" for x in og.walk(term)) \
+                    and any("COUNT" in str(y).upper() and "\ufffd" in str(y) for y in _all_strings(d)):
+                return True
+            for x in og.walk(term):
+                if isinstance(x, tuple) and x and x[0] in ("call", "ret") and isinstance(x[1], str) and x[1].startswith(PDBM):
+                    hb = P.bodies.get(x[1])
+                    if hb is not None and any("COUNT" in str(y).upper() for y in _all_strings(hb)):
+                        return True
+            return False
+
+        def _all_strings(b):
+            out = []
+
+            def walk(o):
+                if isinstance(o, dict):
+                    for k_ in ("str", "bytes"):
+                        if k_ in o:
+                            out.append(o[k_])
+                    for v in o.values():
+                        walk(v)
+                elif isinstance(o, list):
+                    for v in o:
+                        walk(v)
+            walk(b.blocks)
+            return out
+
+        def count_tables(term):
+            """which of the two link tables a counted value ranges over: named in the statement text, or handed as the
+            table name to a counting helper"""
+            if not _is_count(term):
+                return set()
+            return {t for t in LINKS for x in _strings(term) if t in x}
+        counted = {sql.select_shape(st)["tables"][0] for bb, st in sql.body_sql(d) if sql.classify(st)["kind"] == "select" and "COUNT" in st.upper() and sql.select_shape(st)["tables"]}
+        for bb, t in d.calls():
+            tgt = call_target(t) or ""
+            hb = P.bodies.get(tgt)
+            if tgt.startswith(PDBM) and hb is not None and any("COUNT" in str(y).upper() for y in _all_strings(hb)):
+                for i in range(len(t.get("args", []))):
+                    c = const_of(arg_origin(ctx, d, bb, i))
+                    if c and c[0] in LINKS:
+                        counted.add(c[0])
+        counted = sorted(counted)
         if counted == ["invalid_appointments", "pending_appointments"]:
             rr.ok("shared appointment body deleted only when pending + invalid references == 1", sample={"rule": "SQ5", "reference count over": counted})
         else:
@@ -438,13 +490,12 @@ def rule_SQ5(ctx, tier, which=None):
                     k = og.strip(r)
                     if not (isinstance(k, tuple) and k and k[0] == "const"):
                         continue
-                    counts = {str(x[1]) for x in og.walk(l) if isinstance(x, tuple) and x and x[0] == "const" and "COUNT" in str(x[1]).upper()}
-                    both = any("pending_appointments" in x for x in counts) and any("invalid_appointments" in x for x in counts)
+                    both = count_tables(l) == set(LINKS)
                     # ... and the two counts are added
                     summed = False
                     for x in og.walk(l):
                         if isinstance(x, tuple) and len(x) == 4 and x[0] == "bin" and x[1] in ("Add", "AddWithOverflow", "AddUnchecked"):
-                            cs = [{str(y[1]) for y in og.walk(side) if isinstance(y, tuple) and y and y[0] == "const" and "COUNT" in str(y[1]).upper()} for side in (x[2], x[3])]
+                            cs = [count_tables(side) for side in (x[2], x[3])]
                             if all(cs) and cs[0] != cs[1]:
                                 summed = True
                     both = both and summed
